@@ -75,7 +75,7 @@ def gen_case(rng):
         cfg["t3"]["dialogue"] = {"template": tpl, "include_top_k_snippets": 3}
     cfg["t3"]["tokens"] = rng.choice([1, 16, 256, 512])
     fault = rng.choice([None, None, None, "reflect-raises", "index-add-raises", "telemetry-raises", "timeout", "fixture-missing", "fixture-empty-file",
-                        "fixture-corrupt", "fixture-miss", "fixture-empty-completion", "no-index"])
+                        "fixture-corrupt", "fixture-miss", "fixture-empty-completion", "no-index", "reflect-overproduces"])
     if fault and fault.startswith("fixture"):
         backend = "llm"
         cfg["t3"]["reflection"]["backend"] = "llm"
@@ -168,7 +168,16 @@ def run_once(case, allow, fixture_lines, sess, vclock=None, record_key=None, the
                 calls["reflect"] += 1
                 if fault == "reflect-raises":
                     raise EXCS[case["exc"]]("scripted reflect failure")
-                return real_reflect(bundle, cfg_root, embedder=embedder)
+                res_ = real_reflect(bundle, cfg_root, embedder=embedder)
+                if fault == "reflect-overproduces":
+                    # a backend that hands back more entries than the ops cap allows (the writer enforces the cap itself)
+                    try:
+                        base_ = list(res_.memory_entries or [])
+                        extra_ = [dict(base_[0] if base_ else {"text": ""}) for j in range(4)]  # copies: their summaries are within the limit
+                        res_ = type(res_)(summary=res_.summary, memory_entries=base_ + extra_, metrics=res_.metrics)
+                    except Exception:
+                        pass
+                return res_
 
             def write_w(ctx, state, cfg_root, result):
                 calls["write"] += 1
@@ -282,7 +291,7 @@ def check_case(case, sess: Session):
     writes_forbidden = fault in ("reflect-raises", "timeout", "fixture-missing", "fixture-empty-file", "fixture-corrupt", "fixture-miss", "fixture-empty-completion", "index-add-raises", "no-index")
     if writes_forbidden and o["adds"]:
         sess.violation(f"wrote-despite-{fault}", tcase, {"adds": len(o["adds"])})
-    if fault in (None, "telemetry-raises") and cap >= 1 and case["backend"] == "rulebased" and not o["adds"]:
+    if fault in (None, "telemetry-raises", "reflect-overproduces") and cap >= 1 and case["backend"] == "rulebased" and not o["adds"]:
         # the rule-based backend always yields one entry when the cap allows it
         sess.violation("no-entry-written-although-gate-open-and-cap-allows", tcase, {"cap": cap, "calls": calls})
     if len(o["refl_lines"]) > 1:
